@@ -246,3 +246,54 @@ def replay(name, tier, shard, nshards):
     clause = name.split("[")[0]
     bad = [o for o in obs if o["result"] == "refuted" and o["name"].startswith(clause)]
     return "; ".join(f"{o['name']}: {o.get('model')}" for o in bad[:2]) if bad else None
+
+
+# ----------------------------------------------------------------------------------------------- native values (dtypes, aliasing)
+def unit_native(tier="quick", seed=0):
+    """What the exact-arithmetic runs cannot see: numpy dtypes and aliasing.  Complex-valued results of type 'probability' keep each input's
+    (complex) total under both mappings; the result does not change when the caller edits the lists it was built from."""
+    import numpy as np
+    import lightworks as lw
+    from lightworks.emulator.results import SimulationResult
+    fails, n = [], 0
+    ins = [lw.State([1, 0]), lw.State([0, 1])]
+    outs = [lw.State([2, 0]), lw.State([1, 1]), lw.State([0, 2]), lw.State([3, 0])]
+    for label, A in (("complex", np.array([[0.25 + 0.5j, 0.5 - 0.125j, 0.125, 0.125j], [1j, 0.5, 0.25 - 0.25j, 0.25]])),
+                     ("real", np.array([[0.25, 0.5, 0.125, 0.125], [0.0, 0.5, 0.25, 0.25]])),
+                     ("negative real", np.array([[-0.25, 0.5, 0.625, 0.125], [0.5, -0.5, 0.75, 0.25]]))):
+        r = SimulationResult(A, "probability", inputs=list(ins), outputs=list(outs))
+        for mapname in ("threshold", "parity"):
+            for invert in (False, True):
+                n += 1
+                import warnings
+                with warnings.catch_warnings():
+                    warnings.simplefilter("ignore")
+                    try:
+                        m = getattr(r, f"apply_{mapname}_mapping")(invert=invert)
+                    except Exception as e:  # noqa: BLE001
+                        fails.append((dict(values=label, mapping=mapname, invert=invert), f"raised {type(e).__name__}: {e}"))
+                        continue
+                for i, si in enumerate(ins):
+                    tot_new = sum(complex(m[si, t]) for t in m.outputs)
+                    tot_arr = complex(np.sum(m.array[i]))
+                    tot_old = complex(np.sum(A[i]))
+                    if abs(tot_new - tot_old) > 1e-12 or abs(tot_arr - tot_old) > 1e-12:
+                        fails.append((dict(values=label, mapping=mapname, invert=invert, input=si.s), f"input total {tot_old} became {tot_new} (array row {tot_arr})"))
+                        break
+    # the lists handed to the constructor stay the caller's
+    I, O = list(ins), list(outs)[:3]
+    A = np.array([[0.1, 0.2, 0.7], [0.3, 0.3, 0.4]])
+    r = SimulationResult(A, "probability", inputs=I, outputs=O)
+    I.reverse()
+    O.append(lw.State([9, 9]))
+    n += 1
+    bad = [(i, j) for i, si in enumerate(r.inputs) for j, so in enumerate(r.outputs) if j < 3 and r[si, so] != r.array[i, j]]
+    if bad or len(r.outputs) != 3:
+        fails.append((dict(case="caller edits the lists passed to the constructor"), f"pair indexing no longer agrees with the array at {bad[:3]}; outputs now {len(r.outputs)}"))
+    o = dict(name="lightworks/emulator/results/simulation_result.py:SimulationResult#bnd.native-values", kind="bnd", cases=n, result="bounded-fail" if fails else "bounded-pass",
+             backend="native numpy values", ms=0, note="complex / negative values keep each input's total under both mappings; lists passed to the constructor are not shared")
+    if fails:
+        o["failing_cases"] = [str(f[0]) for f in fails]
+        o["model"] = dict(case=fails[0][0], observed=fails[0][1], n_failing=len(fails))
+        o["replayed"] = f"{len(fails)} of {n} cases fail; first {fails[0][0]}: {fails[0][1]}"
+    return dict(status="ok", obligations=[o], summary=f"native values: {n} cases")
